@@ -98,7 +98,22 @@ pub fn chrono_format_routes(fmt: &str, v: &V) -> Result<Vec<(&'static str, Resul
     let lazy: Vec<Item<'_>> = call("StrftimeItems::new", || StrftimeItems::new(fmt).collect())?;
     render("items (lazy)", &lazy, &mut out)?;
     match call("StrftimeItems::parse", || StrftimeItems::new(fmt).parse())? {
-        Ok(items) => render("items (parse)", &items, &mut out)?,
+        Ok(items) => {
+            render("items (parse)", &items, &mut out)?;
+            // the value's own format_with_items, handed an item list the caller parsed
+            let mut a = String::new();
+            let r = match v.kind {
+                0 => { let d = conv::date(v.day); call("NaiveDate::format_with_items", || write!(a, "{}", d.format_with_items(items.iter())))? }
+                1 => call("NaiveTime::format_with_items", || write!(a, "{}", t.format_with_items(items.iter())))?,
+                2 => { let n = conv::date(v.day).and_time(t); call("NaiveDateTime::format_with_items", || write!(a, "{}", n.format_with_items(items.iter())))? }
+                _ => {
+                    let u = shift(Ndt { day: v.day, secs: v.t.secs, frac: v.t.frac }, -(v.off as i64));
+                    let dt = fo.from_utc_datetime(&conv::ndt(u));
+                    call("DateTime::format_with_items", || write!(a, "{}", dt.format_with_items(items.iter())))?
+                }
+            };
+            out.push(("format_with_items", r.map(|_| a).map_err(|_| ())));
+        }
         Err(_) => out.push(("items (parse)", Err(()))),
     }
     match call("StrftimeItems::parse_to_owned", || StrftimeItems::new(fmt).parse_to_owned())? {
